@@ -50,11 +50,13 @@ MonPost ==
     \* C11 through the endpoint: a well-formed body is understood as what was written, however it is DELIVERED (in one piece, in two, line by
     \* line): it is refused as malformed (400) exactly when the old size it states is beyond the size of the checkpoint it carries, and what is
     \* stored on acceptance is the checkpoint that was written, whole
-    /\ (Ev.kind = "ok" /\ (~IsLimited \/ Ev.limit >= 1000) /\ InC09Domain(TRUE, st, req) =>
+    /\ (Ev.kind = "ok" /\ (~IsLimited \/ Ev.limit >= 1000) /\ InC09Domain(TRUE, st, req) /\ ~Ev.extlock =>
           /\ Check("C11", "WellFormedBodyUnderstoodHoweverDelivered", (Ev.status = 400) = (SpecVerdict(TRUE, st, req) = "OldSizeInvalid"))
           /\ Check("C11", "TheCheckpointWrittenIsTheOneStored", Ev.status = 200 => stored'[l] = Signed(req)))
     \* (a 429 excuses the endpoint only where the configured rate can explain it: the runs of this part are configured with 100000 requests/s)
-    /\ (Ev.kind = "ok" /\ (~IsLimited \/ Ev.limit >= 1000) =>
+    \* (Ev.extlock: another connection held a read transaction on the witness' database file while the request was served - the witness may
+    \*  answer with a storage error; what it must not do is answer 200 for a checkpoint that a read does not return afterwards)
+    /\ (Ev.kind = "ok" /\ (~IsLimited \/ Ev.limit >= 1000) /\ ~Ev.extlock =>
           /\ Check("C08", "HonestStepAcceptedThroughTheEndpoint",
                    (req = [HonestReq(st, req.n) EXCEPT !.ext = req.ext] /\ OnMain(st) /\ (st = None \/ req.n >= st.n) /\ ~F1(st, req.n)) => Ev.status = 200)
           /\ Check("C09", "FirstMatchingRuleThroughTheEndpoint", InC09Domain(TRUE, st, req) => Ev.status = StatusOf(SpecVerdict(TRUE, st, req))))
@@ -69,13 +71,14 @@ MonPost ==
                                           /\ Decide(TRUE, st, req).v = "Accept")
               /\ Check("C10", "RefusalUnchanged", Ev.status # 200 => Ev.unchanged)
               /\ Check("C10", "StatusTable",
-                       InC09Domain(TRUE, st, req) => Ev.status = StatusOf(SpecVerdict(TRUE, st, req)))
+                       InC09Domain(TRUE, st, req) /\ ~Ev.extlock => Ev.status = StatusOf(SpecVerdict(TRUE, st, req)))
+              /\ Check("C10", "StorageTroubleIsA500NotA200", Ev.extlock => Ev.status \in {500, StatusOf(Decide(TRUE, st, req).v)})
               /\ Check("C10", "StaleTellsTrueSize",
-                       InC09Domain(TRUE, st, req) /\ SpecVerdict(TRUE, st, req) = "Stale" =>
+                       InC09Domain(TRUE, st, req) /\ SpecVerdict(TRUE, st, req) = "Stale" /\ ~Ev.extlock =>
                            Ev.ctype = "text/x.tlog.size" /\ Ev.body.cls = "size" /\ Ev.body.n = st.n)
               /\ Check("C10", "NoBodyOnOtherRefusals",
                        Ev.status \in {400, 403, 404, 422} => Ev.body.cls = "empty")
-              /\ Check("DRIFT", "Conforms", Ev.status = StatusOf(Decide(TRUE, st, req).v))
+              /\ Check("DRIFT", "Conforms", Ev.extlock \/ Ev.status = StatusOf(Decide(TRUE, st, req).v))
               /\ Check("ORACLE", "RefAgrees",
                        req.auth # "good" \/ Ev.refok = "na" \/ st = None \/
                        (Ev.refok = "yes") = (IF st.n = req.n THEN req.pf.k = "empty" /\ SameTree(st, [b |-> req.b, n |-> req.n])
